@@ -104,6 +104,14 @@ def gen(rng, i, tier):
         a = rng.choice(al)
         std, alias = prop(kind, a)
         k = rng.choice([std, std, alias or std, "OTHER", a, "X" + std])
+        if kind != "smchart" and rng.random() < 0.2:
+            # spellings that are aliases on ANOTHER class are ordinary keys here (FREEZES on an SSC simfile, NOTES2 on a simfile, ...)
+            foreign = sorted({al_ for (kk, aa), al_ in ALIASES.items()} - ({alias} if alias else set()))
+            a2 = [aa for (kk, aa), al_ in ALIASES.items() if aa in al]
+            if foreign:
+                k = rng.choice(foreign)
+                if a2 and rng.random() < 0.7:
+                    a = next((aa for (kk, aa), al_ in ALIASES.items() if al_ == k and aa in al), a)
         v = rng.choice(VALUES[:3] if kind == "smchart" else VALUES)
         ops.append(rng.choice([["ag", a], ["as", a, v], ["ad", a], ["kg", k], ["ks", k, v], ["kd", k], ["in", k], ["it"]]))
     return {"kind": kind, "start": "blank" if kind == "smchart" else rng.choice(["blank", "empty", "alias"]), "ops": ops}
